@@ -74,6 +74,9 @@ let breakpoints : int list =
   List.sort_uniq compare !pts
 
 let sweep_parser : parser0 option ref = ref None
+(* the same pre-state reached by the SPECIFICATION parser (Spec/, independent of the regenerated tables) *)
+let sweep_spec_parser : parser0 ref = ref init_parser
+let sweep_intro : int list ref = ref []
 let sweep_state = ref 0
 let sweep_cells = ref 0
 let sweep_points = ref 0
@@ -93,6 +96,14 @@ let model_sig (p : parser0) (c : int) : str =
        | None -> st ^ " -"
        | Some (Print x) when int_of_n x = c -> st ^ " Print self"
        | Some f -> st ^ " " ^ str_of_func f)
+
+let spec_sig (p : parser0) (c : int) : str =
+  let p', f = spec_feed p (n_of_int c) in
+  let st = string_of_int (int_of_pstate p'.pst) in
+  match f with
+  | None -> st ^ " -"
+  | Some (Print x) when int_of_n x = c -> st ^ " Print self"
+  | Some f -> st ^ " " ^ str_of_func f
 
 let () =
   let file = Sys.argv.(1) in
@@ -435,6 +446,8 @@ let () =
            sweep_state := int t;
            let cs = n_list_of_toks t in
            sweep_parser := feed_all init_parser cs;
+           sweep_spec_parser := fst (spec_run init_parser cs);
+           sweep_intro := List.map int_of_n cs;
            (match !sweep_parser with
             | Some p when int_of_pstate p.pst = !sweep_state -> ()
             | _ -> incr divs; Printf.printf "DIV case=-1 step=0 op=SW fn=sweep comps=sweep.intro state=%d\n" !sweep_state)
@@ -453,6 +466,12 @@ let () =
                     List.iter
                       (fun c ->
                         incr sweep_points;
+                        let sp = spec_sig !sweep_spec_parser c in
+                        if sp <> sg then
+                          (* C03 is a statement about this very table: the implementation's transition / action for
+                             (state, character) differs from the specification - a concrete failing input *)
+                          Printf.printf "ORA prop=C03 kind=sweep state=%d char=%d input=[%s] spec=[%s] impl=[%s]\n" !sweep_state c
+                            (String.concat "," (List.map string_of_int (!sweep_intro @ [ c ]))) sp sg;
                         let m = model_sig p c in
                         if m <> sg then begin
                           incr divs;
@@ -462,6 +481,16 @@ let () =
                       pts
                 | _ -> ()))
        | "QPANIC" -> emit_div "Q" "query" [ "panic.impl" ]
+       | "ECHO" ->
+           (* decided by the harness on the implementation alone (Vt-level scalar sweep: chunking ways, panics) *)
+           print_endline (String.sub l 5 (String.length l - 5))
+       | "VSTAT" ->
+           (match String.split_on_char ' ' l with
+            | [ _; feeds; runs; cases ] ->
+                Hashtbl.replace stats "vsweep_feeds" (int_of_string feeds);
+                Hashtbl.replace stats "vsweep_runs" (int_of_string runs);
+                Hashtbl.replace stats "vsweep_trace_cases" (int_of_string cases)
+            | _ -> ())
        | "END" -> ()
        | _ -> ()
      done
